@@ -1,0 +1,57 @@
+//go:build verif
+
+// Contracts for the gowp verifier (/verif). Comment-only file: compiled only with -tags verif and
+// contributes no code either way.
+
+package discovery
+
+//@ func (d *AuthenticatedGossiper) handleChanAnnouncement
+//@   props C20
+//@   loop * havoc
+//@   site call ValidateChannelAnn: assert arg(a) == ann
+//@   site call validateFundingTransaction: assert arg(ann) == ann
+//@   site call AddEdge: assert (nMsg.isRemote ==> ret(ValidateChannelAnn) == nil) &&
+//@        (!(d.cfg.AssumeChannelValid || ret(IsAlias, 1)) ==> retn(validateFundingTransaction, 3) == nil)
+//@   site call append nth 1: assert ret(AddEdge) == nil && (nMsg.isRemote ==> ret(ValidateChannelAnn) == nil)
+//@
+//@ func (d *AuthenticatedGossiper) validateFundingTransaction
+//@   props C20
+//@   ensures result3 == nil ==> retn(FetchFundingTxWrapper, 1) == nil && retn(makeFundingScript, 1) == nil &&
+//@           retn(Validate, 1) == nil && retn(GetUtxo, 1) == nil
+//@   ensures result3 == nil ==> result2 == retn(makeFundingScript, 0)
+//@   site call makeFundingScript: assert arg(bitcoinKey1) == sliceof(ann.BitcoinKey1) && arg(bitcoinKey2) == sliceof(ann.BitcoinKey2) &&
+//@        arg(features) == ann.Features
+//@   site call FetchFundingTxWrapper: assert arg(1) == ann.ShortChannelID
+//@   site store Context.MultiSigPkScript: assert value == retn(makeFundingScript, 0)
+//@   site store Context.FundingTx: assert value == retn(FetchFundingTxWrapper, 0)
+//@   site store ShortChanIDChanLocator.ID: assert value == ann.ShortChannelID
+//@   site call GetUtxo: assert arg(1) == retn(Validate, 0) && arg(2) == retn(makeFundingScript, 0)
+//@
+//@ func (d *AuthenticatedGossiper) handleChanUpdate
+//@   props C20
+//@   loop * havoc
+//@   site call IsStaleEdgePolicy: assert arg(3) == upd.ChannelFlags && arg(2) == ret(Unix)
+//@   site call time.Unix: assert arg(0) == upd.Timestamp
+//@   site call ValidateChannelUpdateAnn: assert arg(a) == upd && !ret(IsStaleEdgePolicy) && upd.Timestamp != 0 &&
+//@        retn(GetChannelByID, 3) == nil && arg(capacity) == retn(GetChannelByID, 0).Capacity &&
+//@        arg(pubKey) == ite(upd.ChannelFlags % 2 == 0, retn(NodeKey1, 0), retn(NodeKey2, 0))
+//@   site call NodeKey1: assert arg(0) == retn(GetChannelByID, 0)
+//@   site call NodeKey2: assert arg(0) == retn(GetChannelByID, 0)
+//@   site call UpdateEdge: assert ret(ValidateChannelUpdateAnn) == nil && !ret(IsStaleEdgePolicy) &&
+//@        arg(2) == retn(ChanEdgePolicyFromWire, 0) && retn(ChanEdgePolicyFromWire, 1) == nil
+//@   site call ChanEdgePolicyFromWire: assert arg(1) == upd
+//@   site call append nth 1: assert ret(UpdateEdge) == nil && ret(ValidateChannelUpdateAnn) == nil
+//@
+//@ func (d *AuthenticatedGossiper) handleNodeAnnouncement
+//@   props C20
+//@   loop * havoc
+//@   site call IsStaleNode: assert arg(2) == nodeAnn.NodeID && arg(3) == ret(Unix)
+//@   site call time.Unix: assert arg(0) == nodeAnn.Timestamp
+//@   site call addNode: assert arg(msg) == nodeAnn && !ret(IsStaleNode) && nodeAnn.Timestamp != 0
+//@   site call append: assert ret(addNode) == nil && retn(IsPublicNode, 0) && retn(IsPublicNode, 1) == nil
+//@
+//@ func (d *AuthenticatedGossiper) addNode
+//@   props C20
+//@   site call AddNode: assert ret(ValidateNodeAnn) == nil
+//@   site call ValidateNodeAnn: assert arg(0) == msg
+//@   site call NodeFromWireAnnouncement: assert arg(0) == msg
